@@ -337,7 +337,7 @@ func main() {
 			g.Emit("M r z F0;n0;p0;k;t;@s1=1", true, "zero-map", "zero-map-set")
 			g.Emit("M n n l;k;t;g5;d5;c;F0;L1;S2=5;n0;p1;n2;N0;P1", true, "empty-map")
 			// 3. random histories
-			for i := 0; i < g.Scale(3000, 90000); i++ {
+			for i := 0; i < g.Scale(9000, 90000); i++ {
 				cmps := "n"
 				switch r.Intn(5) {
 				case 0:
@@ -358,7 +358,7 @@ func main() {
 				x.g.Emit("M "+cmps+" n "+strings.Join(ops, ";"), true, tags...)
 			}
 			// 4. seek battery after arbitrary edits: every target from below the minimum to above the maximum
-			for i := 0; i < g.Scale(300, 6000); i++ {
+			for i := 0; i < g.Scale(900, 6000); i++ {
 				space := 6 + r.Intn(14)
 				ops := x.history(space, 10+r.Intn(30), false)
 				for k := -2; k <= space+2; k++ {
